@@ -536,11 +536,9 @@ def run_for(prop, tier='quick', seed=0):
     atasks = sorted(rep.values())
     ctx = mp.get_context('fork')
     all_obs = []
-    with ctx.Pool(processes=min(16, os.cpu_count() or 4), maxtasksperchild=8) as pool:
-        for obs in pool.imap_unordered(value_task, vtasks, chunksize=2):
-            all_obs.extend(obs)
-        for obs in pool.imap_unordered(attr_task, atasks, chunksize=1):
-            all_obs.extend(obs)
+    from ..par import collect
+    all_obs.extend(collect(value_task, vtasks, 6, 900, lambda t, why: dict(oid=f'{prop}/worker/value/{t[0]}', props=['C08', 'C09'], status='undecided', detail=why, paths=0, name=t[0], cname=t[1], kind='worker', level='proved')))
+    all_obs.extend(collect(attr_task, atasks, 1, 900, lambda t, why: dict(oid=f'{prop}/worker/attr/{t[0]}', props=['C08', 'C09'], status='undecided', detail=why, paths=0, name=t[1], cname=t[2], kind='worker', level='proved')))
     all_obs.extend(structural_obligations())
     mine = [o for o in all_obs if prop in o['props']]
     viol = sorted((o for o in mine if o['status'] == 'violated'), key=lambda o: o['oid'])
